@@ -109,9 +109,10 @@ pub fn run(ctx: &Ctx) {
     }
     // every message length 0..=200 (hash block boundaries of the message digest), rotating hash / W / counter
     for len in 0..=200usize {
-        let h = ALL_HASHES[len % 6];
-        let w = [8u32, 4, 2, 1][(len / 6) % 4];
+      for h in ALL_HASHES {
+        let w = [8u32, 4, 2, 1][(len / 6 + h.index()) % 4];
         grid.push(SignCase { hash: h, levels: vec![(w, 2)], seed: gen::SeedSpec::Random(len as u64), counter: (len % 4) as u64, counter_class: "msg-len".into(), msg: gen::MsgSpec { len, tag: len as u64 } });
+      }
     }
     ctx.enumerate("grid_all_hash_w", grid.len() as u64, true, |i| grid[i as usize].clone(), |c| check_byte_exact(ctx, c));
 
